@@ -81,7 +81,7 @@ Print Assumptions C02_vmdk_tail_read_unclamped_fails.
 (* 5. flat extents *)
 Theorem C02_flat_read_correct :
   forall nsect off len, 0 <= off < nsect * 512 -> off mod 512 = 0 -> 0 < len ->
-  exists p, vmdk_read (mk_vmdk [XRaw (nsect * 512)]) off len = Ok p /\
+  exists p, vmdk_read (mk_vmdk [XRaw (nsect * 512) 0]) off len = Ok p /\
     let n := Z.min len (nsect * 512 - off) in
     firstn (Z.to_nat n) (srcs_of (plan_of_x p)) = map flat_src (zseq off n).
 Proof. exact vmdk_flat_read_correct. Qed.
